@@ -119,7 +119,7 @@ func randBytes(r *Rng) []byte {
 // ---------- long tokens and comments ----------
 
 func rep(c byte, n int) z.Item { return z.Item{B: []byte{c}, N: n} }
-func lit(s string) z.Item     { return z.Item{B: []byte(s), N: 1} }
+func lit(s string) z.Item      { return z.Item{B: []byte(s), N: 1} }
 
 func longRecipes(n int) []z.Recipe {
 	return []z.Recipe{
@@ -330,14 +330,14 @@ func fsCases(r *Rng) []*z.Config {
 		chain7[fmt.Sprintf("z/e%d.zone", i)] = fmt.Sprintf("h%d A 10.0.0.%d\n%st%d A 10.0.1.%d\n", i, i, nxt, i, i)
 	}
 	tree := map[string]string{
-		"z/a.zone":   "$ORIGIN a.example.\nx A 10.1.0.1\n$INCLUDE sub/b.zone b\ny A 10.1.0.2\n$TTL 77\n",
-		"z/sub/b.zone": "@ NS ns\n$INCLUDE ../c.zone\n$INCLUDE c2.zone c2.\nz 9 A 10.2.0.1\n",
-		"z/c.zone":   "c TXT \"from c\"\n",
+		"z/a.zone":      "$ORIGIN a.example.\nx A 10.1.0.1\n$INCLUDE sub/b.zone b\ny A 10.1.0.2\n$TTL 77\n",
+		"z/sub/b.zone":  "@ NS ns\n$INCLUDE ../c.zone\n$INCLUDE c2.zone c2.\nz 9 A 10.2.0.1\n",
+		"z/c.zone":      "c TXT \"from c\"\n",
 		"z/sub/c2.zone": "@ TXT \"from c2\"\nw CNAME @\n",
-		"z/gen.zone": "$GENERATE 0-1 g$ A 10.3.0.$\n",
-		"z/err.zone": "ok A 10.4.0.1\nbad A 999.1.1.1\nnever A 10.4.0.2\n",
-		"z/empty.zone": "",
-		"z/nonl.zone":  "n A 10.5.0.1",
+		"z/gen.zone":    "$GENERATE 0-1 g$ A 10.3.0.$\n",
+		"z/err.zone":    "ok A 10.4.0.1\nbad A 999.1.1.1\nnever A 10.4.0.2\n",
+		"z/empty.zone":  "",
+		"z/nonl.zone":   "n A 10.5.0.1",
 		"z/origin.zone": "$ORIGIN changed.\n@ A 10.6.0.1\n",
 		"z/ttl.zone":    "$TTL 5\nq A 10.7.0.1\n",
 		"abs.zone":      "abs A 10.8.0.1\n",
